@@ -65,9 +65,13 @@ def world_ops(r, spec, n_ops, *, p_fault=0.0, fault_gen=None, weights=None, star
     return ops
 
 
-def pick_client(r, *, p_yaml=0.25, yaml_names=None, **kw):
-    if r.random() < p_yaml:
+def pick_client(r, *, p_yaml=0.25, yaml_names=None, p_reset=0.12, reset_names=None, **kw):
+    m = r.random()
+    if m < p_yaml:
         return W.gen_yaml_client(r, yaml_names)
+    if m < p_yaml + p_reset:
+        # random composition of built-in components around a built-in reset function
+        return W.gen_reset_client(r, r.choice(reset_names) if reset_names else None, stochastic_obs=not kw.get('deterministic_obs', False))
     return W.gen_hand_client(r, **kw)
 
 
@@ -90,7 +94,7 @@ def simplify_single(record):
     import copy
 
     cl = record['clients'][0]
-    if cl['kind'] != 'hand':
+    if cl['kind'] != 'hand' or cl.get('world') is None:
         return
     # drop pool worlds
     for i in range(len(cl.get('pool_worlds', []))):
